@@ -641,6 +641,11 @@ class Interp:
         ctx = self.ctx
         inv = ctx.invariants.get(self.loop_key(node, fr))
         it = self.eval(node.iter, fr)
+        if isinstance(it, self.models.Handle) and not any(c in it.mode for c in 'wax+b') and \
+                isinstance(it.content, (list, self.models.LazySeq)):
+            # iterating a text file yields its lines (the environment supplies them as a list)
+            ctx.assumed_models.add("iterating a text file yields its lines, in order")
+            it = it.content
         from .seq import Chunk as _Chunk
         concrete_iter = isinstance(it, (list, tuple, range, dict, str, bytes)) and not (
             isinstance(it, (list, tuple)) and any(isinstance(e, _Chunk) for e in it))
@@ -968,7 +973,7 @@ class Interp:
             return MethodRef(o, name)
         if isinstance(o, self.models.Handle):
             return self.models.handle_attr(self, o, name)
-        if isinstance(o, (self.models.SymRegex, self.models.LazySeq, self.models.ArgParserStub)):
+        if isinstance(o, (self.models.SymRegex, self.models.LazySeq, self.models.ArgParserStub, self.models.AbsMatch)):
             return MethodRef(o, name)
         if o is None:
             raise_py(AttributeError, "'NoneType' object has no attribute '%s'" % name)
